@@ -41,7 +41,7 @@ LiqAmts   == {AllLiq, <<0, 0, 0, 1>>} \cup (IF Level > 1 THEN {<<>>, <<0, 0, 0, 
 OpEvents ==
        {[op |-> "add", r |-> r, b |-> b, q |-> q] : r \in RangesDef, b \in BaseAmts, q \in QuoteAmts}
   \cup {[op |-> "remove", r |-> r, liq |-> l, collect |-> c] : r \in RangesDef, l \in LiqAmts, c \in BOOLEAN}
-  \cup {[op |-> "collect", r |-> r, m0 |-> m, m1 |-> AllAmt] : r \in RangesDef, m \in {AllAmt, D(1, 100)}}
+  \cup {[op |-> "collect", r |-> r, m0 |-> m, m1 |-> n] : r \in RangesDef, m \in {AllAmt, D(1, 100)}, n \in {AllAmt, D(1, 10000000)}}   \* caps on either token
   \cup {[op |-> "buy", a |-> a] : a \in {D(1, 2), D(0, 1), D(100, 1)}}
   \cup {[op |-> "sell", a |-> a] : a \in {D(1, 2), D(11, 1)}}
   \cup {[op |-> o, r |-> r] : o \in {"lend", "unlend"}, r \in RangesDef}          \* transfer_position_out / _in (a vault borrows the position)
